@@ -60,3 +60,13 @@ func VerifHas(id int) bool {
 
 	return ok
 }
+
+// VerifClear empties every cache under the lock (free-running race pass: old
+// sweepers may still be alive, so nothing they read is written here).
+func VerifClear(limit int) {
+	cacheLock.Lock()
+	defer cacheLock.Unlock()
+
+	cacheList = map[int]Cache{}
+	MaxCacheSize = limit
+}
